@@ -347,6 +347,13 @@ func (e *Engine) globalInit(g *ssa.Global, elem types.Type) (Value, bool) {
 		*c = &Native{Kind: "osfile", Data: g.Name()}
 		return Ptr{P: c}, true // writes to it are modelled as no-ops (fmt.Fprint*)
 	}
+	if g.Pkg != nil && g.Pkg.Pkg.Path() == "net/http" && (g.Name() == "DefaultServeMux" || g.Name() == "DefaultClient") {
+		if p, ok := elem.(*types.Pointer); ok {
+			c := new(Value)
+			*c = zero(p.Elem())
+			return Ptr{P: c}, true // a fresh default mux / client (no real network in the model)
+		}
+	}
 	if g.Pkg != nil && !e.initAllowed(g.Pkg) && initAssigned(g) {
 		e.abort("unsupported", "read of package variable %s whose initialiser is not executed (add a model or -init %s)", g.String(), g.Pkg.Pkg.Path())
 	}
